@@ -226,7 +226,7 @@ def run(ctx):
         [t.start() for t in ths]
         [t.join() for t in ths]
         if not ok or len(set(results)) != 1:
-            ctx.violation({'kind': 'uuid-sentinels', 'dashed': dashed}, {'values': [a, b, a2], 'threads': sorted(set(results))},
+            ctx.beyond('Sentinels', {'kind': 'uuid-sentinels', 'dashed': dashed}, {'values': [a, b, a2], 'threads': sorted(set(results))},
                           '_UUIDSentinels(is_dashed=%s): one value per name violated' % dashed)
     ctx.stage('uuid-sentinels', ok=True)
     # binding self-test
